@@ -6,7 +6,7 @@
     * table-level names for the objects the theorems of `LpProofs.C01` talk about
       (`cubic`, `cubicD1..3`, `pEst`, `limiterInactive`, `cell`) — all definitionally the
       expressions `Lp.Interp.Obj.cubicAt`, `Obj.derivative`, `Obj2.interpolate` evaluate
-      (lemmas `cubicAt_eq`, `derivative_eq_*`, `interpolate2_eq` in `LpProofs/C01/Kernel.lean`);
+      (lemmas `cubicAt_eq`, `interpolate_eq`, `derivative_eq`, `interpolate2_eq` in `LpProofs/C01/Table.lean`);
     * the request-level wrappers the driver runs (`run1D`, `run2D`): build the object from the
       lists exactly as the constructor does, apply `Set_Prefactor`/`Multiply`, evaluate the
       queries in order threading the search state (`jLast`, `correlated_calls`).
